@@ -56,6 +56,8 @@ Plan array_gen(const std::string &check, const std::string &tier, uint64_t seed,
     plan.cfg["maxf"] = g.maxf;
     plan.cfg["p_bad"] = g.p_bad;
     plan.cfg["p_fault"] = p_fault;
+    // half of the fault-injecting runs do not re-issue a call that failed because of its fault
+    if (check.find("noretry") != std::string::npos || (faults && rng.chance(0.5))) plan.cfg["no_retry"] = 1;
     plan.cfg["read_frag"] = rng.chance(0.5) ? 0L : rng.pick(std::vector<long>{1, 2, 3, 7, 64});
     plan.cfg["bufsize"] = rng.chance(0.5) ? -1L : rng.pick(std::vector<long>{0, 1, 7, 64, 4096});
     int ntasks = (int)rng.range(1, 3);
